@@ -183,6 +183,7 @@ pub fn redo_cmd(rng: &mut Rng, prog: &str, targets: &[String], max_j: u64, log_p
         make_tokens: None,
         start_step: 0,
         key: None,
+        reader_gone_at: None,
     }
 }
 
